@@ -106,9 +106,26 @@ def seeded_variants(prop):
     return out
 
 
+def benign_variants(prop):
+    """Independently written behaviour-preserving refactorings of the property's mechanism (kept under
+    /verif/benign/<PROP>-R<n>/): the check must stay silent on them."""
+    import glob
+    out = []
+    for mp in sorted(glob.glob(os.path.join(VERIF, "benign", prop + "-*", "meta.json"))):
+        try:
+            m = json.load(open(mp))
+        except Exception:
+            continue
+        d = os.path.dirname(mp)
+        if m.get("expected_alarm"):
+            continue  # documented limitation: see meta.json
+        out.append({"name": "benign-" + os.path.basename(d), "kind": "benign", "patch": os.path.relpath(os.path.join(d, "patch.diff"), VERIF), "why": m.get("why_equivalent", "")[:200]})
+    return out
+
+
 def run(prop, mod, only=None, workers=4):
     from concurrent.futures import ThreadPoolExecutor
-    variants = list(getattr(mod, "SELFTEST", [])) + seeded_variants(prop)
+    variants = list(getattr(mod, "SELFTEST", [])) + seeded_variants(prop) + benign_variants(prop)
     todo = [v for v in variants if not only or v["name"] in only]
     if not todo:
         return []
